@@ -571,6 +571,176 @@ def _corr_train(ctx, model):
 
 
 # ----------------------------------------------------------------------------------------------
+# trainer sessions: derived counters, which batch each step consumes, logging / evaluation / checkpoint schedule,
+# a second train() on the same object  (model: trainSession / trainAgain, theorems C20_train_session,
+# C20_resume_chain, C20_train_fresh_start, C20_train_errors)
+
+
+def _session_impl(conf_extra, n, n_test, b, ep, wd, prev_dir_exists, variables0, again, seed=0):
+    """one real BasicFlaxTrainer: constructor + train() (+ a second train()); everything observable recorded"""
+    import contextlib
+    import io
+
+    import jax
+    from flax import jax_utils
+    from scico import flax as sflax
+    from scico.flax.train.trainer import BasicFlaxTrainer
+
+    def ds(m):
+        idx = np.arange(m, dtype=np.float32)
+        return {"image": np.broadcast_to(idx[:, None, None, None], (m, 4, 4, 1)).copy(),
+                "label": np.broadcast_to((7.0 * idx + 3.0)[:, None, None, None], (m, 4, 4, 1)).copy()}
+
+    conf = {"seed": seed, "opt_type": "SGD", "batch_size": b, "num_epochs": ep, "base_learning_rate": 1e-3, "warmup_epochs": 0, "workdir": wd}
+    conf.update(conf_extra)
+    out = {}
+    sink = io.StringIO()
+    with contextlib.redirect_stdout(sink):
+        try:
+            tr = BasicFlaxTrainer(conf, sflax.ConvBNNet(depth=2, channels=1, num_filters=2), ds(n), ds(n_test), variables0=variables0)
+        except Exception as e:  # noqa: BLE001
+            return {"err": common.err_kind(e), "where": "init"}, None
+        out["offset"] = int(tr.state.step)
+        out["N"], out["spe"] = int(tr.num_steps), int(tr.steps_per_epoch)
+        out["spc"], out["log_every"], out["steps_per_eval"] = int(tr.steps_per_checkpoint), int(tr.log_every_steps), int(tr.steps_per_eval)
+        runs = []
+        dvar = None
+        for _ in range(2 if again else 1):
+            rec = {"steps": [], "rows": [], "pair": True, "logged": [], "eval_rows": [], "ckpt": []}
+            o_train, o_eval, o_upd, o_ck = tr.p_train_step, tr.p_eval_step, tr.update_metrics, tr.checkpoint
+
+            def w_train(state, batch, rec=rec, o=o_train):
+                rec["steps"].append(int(np.asarray(jax.device_get(state.step)).ravel()[0]))
+                img = np.asarray(batch["image"])[..., 0, 0, 0].ravel()
+                lab = np.asarray(batch["label"])[..., 0, 0, 0].ravel()
+                rec["rows"].append([int(v) for v in img])
+                if not np.array_equal(lab, 7.0 * img + 3.0):
+                    rec["pair"] = False
+                return o(state, batch)
+
+            def w_eval(state, batch, rec=rec, o=o_eval):
+                rec["eval_rows"].append([int(v) for v in np.asarray(batch["image"])[..., 0, 0, 0].ravel()])
+                return o(state, batch)
+
+            def w_upd(state, step, tm, t0, rec=rec, o=o_upd):
+                rec["logged"].append(int(step))
+                return o(state, step, tm, t0)
+
+            def w_ck(state, rec=rec, o=o_ck):
+                rec["ckpt"].append(int(np.asarray(jax.device_get(jax_utils.unreplicate(state).step))))
+                return o(state)
+
+            tr.p_train_step, tr.p_eval_step, tr.update_metrics, tr.checkpoint = w_train, w_eval, w_upd, w_ck
+            try:
+                dvar, _ = tr.train()
+            except Exception as e:  # noqa: BLE001
+                rec["err"] = common.err_kind(e)
+            finally:
+                tr.p_train_step, tr.p_eval_step, tr.update_metrics, tr.checkpoint = o_train, o_eval, o_upd, o_ck
+            rec["dir"] = _listing(wd)
+            runs.append(rec)
+            if "err" in rec:
+                break
+        out["runs"] = runs
+    return out, dvar
+
+
+def _session_case(ctx, model, name, n, n_test, b, ep, extra, pre=None, vars0=False, again=False):
+    """`pre` = list of epochs of earlier checkpointing sessions run first in the same work directory"""
+    import jax
+
+    tmp = tempfile.mkdtemp(prefix="verif_c20_")
+    case = {"kind": "session", "name": name, "n": n, "n_test": n_test, "b": b, "epochs": ep, "conf": {k: v for k, v in extra.items()},
+            "pre": pre, "variables0": vars0, "again": again}
+    try:
+        wd = os.path.join(tmp, "wd")
+        dvar = None
+        for pe in pre or []:
+            _, dvar = _session_impl({"checkpointing": True, "steps_per_checkpoint": 2, "log": False, "log_every_steps": 10**6}, n, n_test, b, pe, wd, None, None, False)
+        mdir = _listing(wd)
+        impl, _ = _session_impl(extra, n, n_test, b, ep, wd, None, dvar if vars0 else None, again)
+        req = dict(keep=3, dir=mdir, len_train=n, len_test=n_test, batch_size=b, num_epochs=ep, spc=extra.get("steps_per_checkpoint"),
+                   log_every=extra.get("log_every_steps"), steps_per_eval=extra.get("steps_per_eval"),
+                   checkpointing=bool(extra.get("checkpointing", False)), has_vars0=bool(vars0), log=bool(extra.get("log", False)), again=again)
+        try:
+            m = model.call("session", **req)
+            merr = None
+        except ModelErr as e:
+            m, merr = None, e.kind
+        ctx.case(case, ("session", name))
+        ctx.count("session:" + ("resumed" if impl.get("offset", 0) > 0 else "from-0"))
+        ierr = impl.get("err") or next((r["err"] for r in impl.get("runs", []) if "err" in r), None)
+        if merr is not None or ierr is not None:
+            ctx.count(f"session:err:{ierr}")
+            if merr != ierr:
+                ctx.disagree("flax.session.error", case, ierr, merr)
+            return
+        if (impl["N"], impl["spe"]) != (m["N"], m["spe"]):
+            ctx.disagree("flax.session.counters", case, [impl["N"], impl["spe"]], [m["N"], m["spe"]])
+            return
+        # the batches of this session's (re-started) training iterator, from jax.random directly
+        key1 = jax.random.split(jax.random.PRNGKey(0))[0]
+        nb = max((len(r["steps"]) for r in impl["runs"]), default=0) * (2 if again else 1) + 1
+        spe = impl["spe"]
+        keys, perms = _chain(key1, n, nb // max(spe, 1) + 2)
+        sp = model.call("specbatch", n=n, b=b, train=True, t=nb, perms=perms) if spe > 0 else []
+        consumed = 0  # batches already drawn from the iterator by an earlier train() of the same object
+        econsumed = 0
+        for which, (r, mo) in enumerate(zip(impl["runs"], [m["first"]] + ([m["second"]] if again else []))):
+            evs = mo["events"]
+            a = {"offset": impl["offset"], "steps": r["steps"], "logged": r["logged"], "ckpt": r["ckpt"], "dir": r["dir"],
+                 "eval_batches": len(r["eval_rows"])}
+            ck = [e[0] + 1 for e in evs if e[4]] + [max(mo["offset"], m["N"])]
+            mm = {"offset": mo["offset"], "steps": [e[0] for e in evs], "logged": [e[0] for e in evs if e[2]],
+                  "ckpt": ck, "dir": mo["dir"], "eval_batches": mo["eval_batches"]}
+            if a != mm:
+                def oracle(c, a=a, N=impl["N"]):
+                    exp = list(range(a["offset"], N))
+                    if a["steps"] != exp:
+                        return {"case": c, "executed": a["steps"], "expected_executed": exp}
+                    return None
+
+                ctx.disagree("flax.session.schedule", {**case, "train_call": which}, a, mm, oracle=oracle)
+                return
+            want_rows = [sp[consumed + e[1]] for e in evs]
+            if r["rows"] != want_rows or not r["pair"]:
+                ctx.disagree("flax.session.batches", {**case, "train_call": which}, {"rows": r["rows"], "paired": r["pair"]}, {"rows": want_rows, "paired": True},
+                             oracle=lambda c, r=r: ({"case": c, "what": "image and label rows delivered to the train step are not the same rows"} if not r["pair"] else None))
+                return
+            if r["eval_rows"]:
+                se = n_test // b
+                exp = [list(range(((econsumed + i) % se) * b, ((econsumed + i) % se) * b + b)) for i in range(len(r["eval_rows"]))]
+                if r["eval_rows"] != exp:
+                    ctx.disagree("flax.session.eval-order", {**case, "train_call": which}, r["eval_rows"], exp,
+                                 oracle=lambda c, r=r, exp=exp: {"case": c, "eval_batches": r["eval_rows"], "expected": exp, "what": "evaluation batches are not in dataset order"})
+                    return
+            consumed += len(evs)
+            econsumed += len(r["eval_rows"])
+    finally:
+        shutil.rmtree(tmp, ignore_errors=True)
+
+
+def _corr_session(ctx, model):
+    base = {"checkpointing": True, "steps_per_checkpoint": 2, "log": True, "log_every_steps": 4, "steps_per_eval": 2}
+    cases = [
+        ("resume+log+again", 6, 4, 2, 3, base, [1], False, True),
+        ("variables0-no-restore", 6, 4, 2, 2, {**base, "log": False}, [2], True, False),
+        ("spc=0", 6, 4, 2, 1, {**base, "steps_per_checkpoint": 0, "log": False}, None, False, False),
+        ("batch>n", 3, 4, 4, 2, {"checkpointing": True, "log": False}, None, False, False),
+    ]
+    if ctx.thorough:
+        cases += [
+            ("no-checkpointing", 6, 4, 2, 2, {"checkpointing": False, "log": False, "steps_per_checkpoint": 2, "log_every_steps": 3}, [1], False, False),
+            ("log_every=0", 6, 4, 2, 1, {**base, "log_every_steps": 0}, None, False, False),
+            ("defaults", 7, 5, 3, 2, {"checkpointing": True, "log": True}, [1], False, False),
+            ("target-below-latest", 6, 4, 2, 1, {**base, "log": False}, [3], False, True),
+            ("incomplete-batch+eval-default", 7, 5, 2, 2, {"checkpointing": True, "log": True, "log_every_steps": 2, "steps_per_checkpoint": 3}, None, False, False),
+        ]
+    for name, n, nt, b, ep, extra, pre, v0, again in cases:
+        _session_case(ctx, model, name, n, nt, b, ep, extra, pre, v0, again)
+
+
+# ----------------------------------------------------------------------------------------------
 # variables
 
 
@@ -636,6 +806,7 @@ def correspond(ctx, model):
     _corr_vars(ctx, model)
     _corr_ckpt(ctx, model)
     _corr_train(ctx, model)
+    _corr_session(ctx, model)
 
 
 def findings(ctx, model):
